@@ -2,11 +2,86 @@
 (real code, symbolic execution), the interleavings are decided on a timestamp (partial-order) SMT encoding with net/http as a contract automaton."""
 import json
 from common import Run, main_guard, load_findings
+from gosym import Unsupported, NIL as NIL_
 import driver, stubs
 from conc_model import Model
 
 ANCHORS = ['server/job.go', 'server/server.go', 'main.go']
 H = ['c14_harness.go', 'c14_intr_sym.go']
+
+
+def native_sigint(run):
+    """build the binary, start the server, put a request in flight, send SIGINT twice during the drain: the request must get its 200 and
+    the process must exit with status 0"""
+    import os, signal, socket, subprocess, tempfile, time
+    from common import REPO, GOENV, scratch
+    d = tempfile.mkdtemp(prefix='sig_', dir=scratch())
+    exe = os.path.join(d, 'gnark-mbu')
+    out = {'failed': [], 'log': []}
+    p = subprocess.run(['go', 'build', '-o', exe, '.'], cwd=REPO, env=GOENV, stdout=subprocess.PIPE, stderr=subprocess.STDOUT, text=True)
+    if p.returncode:
+        out['log'].append('build failed: ' + p.stdout[-400:])
+        return out
+    keys = os.path.join(d, 'keys')
+    q = subprocess.run([exe, 'setup', '--mode', 'deletion', '--output', keys, '--tree-depth', '2', '--batch-size', '1'], cwd=d, stdout=subprocess.PIPE, stderr=subprocess.PIPE, text=True, timeout=600)
+    body = subprocess.run([exe, 'gen-test-params', '--mode', 'deletion', '--tree-depth', '2', '--batch-size', '1'], cwd=d, stdout=subprocess.PIPE, stderr=subprocess.PIPE, text=True, timeout=600).stdout.strip().encode()
+    if q.returncode or not body.startswith(b'{'):
+        out['log'].append('setup / gen-test-params failed')
+        return out
+
+    def free():
+        s_ = socket.socket()
+        s_.bind(('127.0.0.1', 0))
+        a = s_.getsockname()[1]
+        s_.close()
+        return a
+    pa, ma = free(), free()
+    srv = subprocess.Popen([exe, 'start', '--mode', 'deletion', '--keys-file', keys, '--prover-address', '127.0.0.1:%d' % pa, '--metrics-address', '127.0.0.1:%d' % ma], cwd=d, stdout=subprocess.PIPE, stderr=subprocess.PIPE)
+    try:
+        conn = None
+        for _ in range(200):
+            try:
+                conn = socket.create_connection(('127.0.0.1', pa), timeout=2)
+                break
+            except OSError:
+                time.sleep(0.1)
+        if conn is None:
+            out['log'].append('server did not come up')
+            return out
+        half = len(body) // 2
+        conn.sendall(b'POST /prove HTTP/1.1\r\nHost: x\r\nContent-Type: application/json\r\nContent-Length: %d\r\n\r\n' % len(body) + body[:half])
+        time.sleep(0.6)
+        srv.send_signal(signal.SIGINT)
+        time.sleep(1.0)
+        if srv.poll() is None:
+            srv.send_signal(signal.SIGINT)         # an impatient operator
+        time.sleep(1.0)
+        resp = b''
+        try:
+            conn.sendall(body[half:])
+            conn.settimeout(120)
+            while True:
+                chunk = conn.recv(65536)
+                if not chunk:
+                    break
+                resp += chunk
+        except OSError as x:
+            out['log'].append('socket: %r' % (x,))
+        ok = resp.startswith(b'HTTP/1.1 200') and b'"ar"' in resp
+        out['log'].append('response: %r' % resp[:60])
+        if not ok:
+            out['failed'].append('the request accepted before the stop receives its full 200 response')
+        try:
+            rc = srv.wait(timeout=120)
+        except subprocess.TimeoutExpired:
+            rc = None
+        out['log'].append('exit status %r' % (rc,))
+        if rc != 0:
+            out['failed'].append('the process exits with status 0 after the drain (got %r)' % (rc,))
+    finally:
+        if srv.poll() is None:
+            srv.kill()
+    return out
 
 
 def main():
@@ -97,6 +172,42 @@ def main():
                 if failed or panicked:
                     run.violation('the model proves the shutdown properties but the real build fails scenario %s: %s' % (scen, (sorted(set(failed)) or ['panic'])[:2]),
                                   {'native_scenario': scen, 'native_failed': sorted(set(failed)), 'native_output_tail': out[-1500:]}, key='C14:native-' + scen)
+        # ---- the command-line server (main.go: start, start-from-s3): SIGINT stays handled until waiting-for-stop has returned
+        cli_findings = []
+        try:
+            import cli_model
+            progm = cli_model.load_main()
+            smm, table, flagdefs, _ = cli_model.command_table(progm)
+            for cmd in [c for c in ('start', 'start-from-s3') if c in table]:
+                rs, exc = cli_model.run_command(progm, smm, table, flagdefs, cmd)
+                good = [r for r in rs if r.status == 'ok' and (r.ret is NIL_ or r.ret is None)]
+                badp = [r for r in rs if r.status not in ('ok', 'infeasible')]
+                if badp or exc.incomplete:
+                    run.inconclusive.append('%s: %s' % (cmd, exc.incomplete or ('path ends with %s: %s' % (badp[0].status, str(badp[0].info)[:150]))))
+                    continue
+
+                def order_ok(r):
+                    names = [e[1] for e in r.state.events if e[0] == 'api']
+                    if 'server.Run' not in names or 'RequestStop' not in names or 'AwaitStop' not in names or 'signal.Subscribe' not in names:
+                        return False
+                    i_run, i_sub, i_req, i_aw = names.index('server.Run'), names.index('signal.Subscribe'), names.index('RequestStop'), names.index('AwaitStop')
+                    if not (i_sub < i_req < i_aw and i_run < i_req):
+                        return False
+                    return not any(n == 'signal.Unsubscribe' and i < i_aw for i, n in enumerate(names))
+                viol = [r for r in good if not order_ok(r)]
+                run.obligation('%s: on every successful path the server is run, SIGINT is subscribed to before the stop is requested, and the subscription is kept until waiting-for-stop has returned '
+                               '(a repeated SIGINT during the drain cannot terminate the process) (%d paths)' % (cmd, len(good)), 'unsat' if not viol and good else ('sat' if viol else 'unknown'), 'unsat', 0.0)
+                if viol:
+                    cli_findings.append(cmd)
+        except Unsupported as x:
+            run.inconclusive.append('command-line server: unsupported by the encoder: %s' % x)
+        if cli_findings:
+            out = native_sigint(run)
+            if out['failed']:
+                run.violation('%s: the SIGINT subscription is dropped before the drain has finished -- reproduced with the built binary: %s' % (cli_findings[0], out['failed'][:2]),
+                              {'commands': cli_findings, 'native': out}, key='C14:sigint')
+            else:
+                run.inconclusive.append('%s: SIGINT handling differs from the model but the native double-SIGINT scenario behaves: %s' % (cli_findings[0], out['log'][-2:]))
         run.assumptions += sorted(stubs.USED) + ['net/http contract automaton (ListenAndServe: check flag / bind / track / serve; Shutdown: flag+close tracked listeners, wait for in-flight; Close: immediate)',
                                                   'requests always finish; OS signal delivery and the kernel releasing a closed socket are outside the model',
                                                   'goroutines are straight-line and do not branch on received data (checked during extraction)']
